@@ -14,11 +14,11 @@ VHDL_ASSUME = [
     "numeric_std / std_logic_1164 operator semantics are those transcribed in specs/cohdl_semantics.py (no VHDL tool in the sandbox); counterexamples are replayed against the Python code only",
 ]
 
-C05_MODULES = ["contracts.core_models", "contracts.c09_arith", "contracts.c09_bounded", "contracts.c05_convert", "contracts.c05_format_cast", "contracts.c05_setters"]
+C05_MODULES = ["contracts.core_models", "contracts.c09_arith", "contracts.c09_bounded", "contracts.c05_convert", "contracts.c05_format_cast", "contracts.c05_setters", "contracts.c05_join"]
 
 C13_MODULES = ["contracts.core_models", "contracts.c09_bounded", "contracts.c13_types", "contracts.c13_views"]
 
-C06_MODULES = C05_MODULES + ["contracts.c13_types", "contracts.c06_names", "contracts.c06_ports", "contracts.c06_stmts"]
+C06_MODULES = C05_MODULES + ["contracts.c13_types", "contracts.c13_views", "contracts.c06_names", "contracts.c06_ports", "contracts.c06_stmts", "contracts.c02_ops"]
 
 C02_MODULES = C05_MODULES + ["contracts.c13_types", "contracts.c13_views", "contracts.c02_ops", "contracts.c02_frontend", "contracts.c02_replace", "contracts.c02_assembler", "contracts.c03_lowering"]
 
